@@ -374,7 +374,8 @@ def _renamed(task, frm, to):
 _t_c12e = tasks
 def tasks(tier):
     import specs.C10 as C10
-    shared = [('bracket_first', C10.mk_first(tier)), ('bracket_last', C10.mk_last(tier)), ('bracket_exclusive', C10.mk_excl(tier)), ('bracket_wiring', C10.t_wiring), ('bracket_start_end', C10.t_start_end),
+    shared = [('bracket_first', C10.mk_first('quick')), ('bracket_last', C10.mk_last('quick')), ('bracket_exclusive', C10.mk_excl('quick')),      # lists <= 4 in both tiers here; C10 itself goes to 6 in the thorough tier
+              ('bracket_wiring', C10.t_wiring), ('bracket_start_end', C10.t_start_end),
               ('bracket_start_deleverage', C10.mk_bracket('start_deleverage')), ('bracket_end_deleverage', C10.mk_bracket('end_deleverage'))]
     return _t_c12e(tier) + [(n, _renamed(t, 'C10.', 'C12.e.')) for n, t in shared]
 
